@@ -41,6 +41,44 @@ int comp_audio()
         else if(w[0] == "on" && a.size() == 3) os << "ret=" << opn2_rt_noteOn(dev, (OPN2_UInt8)a[0], (OPN2_UInt8)a[1], (OPN2_UInt8)a[2]);
         else if(w[0] == "off" && a.size() == 2) { opn2_rt_noteOff(dev, (OPN2_UInt8)a[0], (OPN2_UInt8)a[1]); os << "ok"; }
         else if(w[0] == "pc" && a.size() == 2) { opn2_rt_patchChange(dev, (OPN2_UInt8)a[0], (OPN2_UInt8)a[1]); os << "ok"; }
+        else if(w[0] == "chiptype" && a.size() == 1) { opn2_setChipType(dev, (int)a[0]); os << "ok"; }
+        else if(w[0] == "runatpcm" && a.size() == 1) { os << "ret=" << opn2_setRunAtPcmRate(dev, (int)a[0]); }
+        else if(w[0] == "emu" && a.size() == 1) { os << "ret=" << opn2_switchEmulator(dev, (int)a[0]); }
+        else if(w[0] == "panic") { opn2_panic(dev); os << "ok"; }
+        else if(w[0] == "reset") { opn2_reset(dev); os << "ok"; }
+        else if(w[0] == "cc" && a.size() == 3) { opn2_rt_controllerChange(dev, (OPN2_UInt8)a[0], (OPN2_UInt8)a[1], (OPN2_UInt8)a[2]); os << "ok"; }
+        else if(w[0] == "stat" && a.size() == 1)
+        {
+            // stat <frames>: renders and summarises the left channel: rising zero crossings around the mean, first audible frame, rms, peak, mean, last value
+            long frames = a[0] > 0 ? a[0] : 0;
+            std::vector<short> buf((size_t)frames * 2 + 2, 0);
+            long got = 0;
+            while(got < frames * 2)
+            {
+                long want = frames * 2 - got; if(want > 8192) want = 8192;
+                int r = opn2_generate(dev, (int)want, buf.data() + got);
+                if(r <= 0) break;
+                got += r;
+            }
+            long n = got / 2;
+            double mean = 0; for(long i = 0; i < n; ++i) mean += buf[2 * i]; if(n) mean /= n;
+            long peak = 0, first = -1, zc = 0, firstZ = -1, lastZ = -1; double sq = 0;
+            // hysteresis crossing detector (a quarter of the peak) so that noise around the mean does not count
+            long pk = 0; for(long i = 0; i < n; ++i) { long d = labs((long)buf[2 * i] - (long)mean); if(d > pk) pk = d; }
+            double th = pk / 4.0; int state = 0;
+            for(long i = 0; i < n; ++i)
+            {
+                double x = buf[2 * i] - mean;
+                long ax = labs((long)x); if(ax > peak) peak = ax;
+                sq += x * x;
+                if(first < 0 && ax > 64) first = i;
+                if(state <= 0 && x > th) { if(state < 0) { ++zc; if(firstZ < 0) firstZ = i; lastZ = i; } state = 1; }
+                else if(state >= 0 && x < -th) state = -1;
+            }
+            long absPeak = 0; for(long i = 0; i < n; ++i) { long v = labs((long)buf[2 * i]); if(v > absPeak) absPeak = v; }
+            os << "ret=" << got << " n=" << n << " zc=" << zc << " firstz=" << firstZ << " lastz=" << lastZ << " first=" << first << " rms=" << (long)(n ? sqrt(sq / n) : 0)
+               << " peak=" << peak << " abspeak=" << absPeak << " mean=" << (long)mean << " last=" << (n ? buf[2 * (n - 1)] : 0);
+        }
         else if(w[0] == "genfmt" && a.size() == 5)
         {
             // genfmt <type> <container> <sampleOffset> <planar> <n>
